@@ -4,21 +4,26 @@
   real parser. A shared lemma file (no entry of its own in properties_cfg.py): GM.Props.C05 / C01 re-export from here.
 
   PROVED for EVERY byte string:
+  * `inline_lines_wf0`            — `GM.Props.Blocks.InlineLinesWF0 src`: every inline-bearing block of the final store
+                                    has `WF0` lines (what the inline phase assumes of its input).
+  * `nonraw_lines_padding_zero`, `open_stack_empty_at_end` — the CLOSE DISCIPLINE at the end of the run: every segment
+                                    of every non-raw block has padding 0; the open-block stack is empty.
   * `inline_lines_ordered`        — C05(c) ORDER clause for every block that is not raw (everything but CodeBlock,
                                     FencedCodeBlock, HTMLBlock): its line segments increase.
   * `inline_lines_in_range_and_ordered` — range + order together for those blocks.
-  * `lines_ordered_reduction`, `inline_wf0_reduction` — what the two statements that are still open
-    (`GM.Props.Blocks.LinesInRange`, `GM.Props.Blocks.InlineLinesWF0`) are equivalent to.
+  * `lines_ordered_reduction`, `inline_wf0_reduction`, `inline_wf0_remaining` — what `GM.Props.Blocks.LinesInRange` /
+    `InlineLinesWF0` are equivalent to.
   * `inline_segments_nonempty`, `inline_lines_wellformed`, `inline_bearing_wellformed` — every segment of a non-raw
-                                    block is non-empty without ForceNewline; its line list is `WFSegs` (any paddings).
-  * `inline_wf0_remaining`        — hence `InlineLinesWF0 src` is equivalent to ONE fact: padding 0 on the segments of
-                                    inline-bearing blocks of the final store.
-  PROVED per parser (from the reader invariant `RI`, every state): which segment paragraph Open / Continue / Close, ATX
-  Open, setext Open / Close and list Close put into the tree (`paragraph_open_line`, …).
-  NOT proved: the order clause for the three raw kinds; padding 0 of the segments of inline-bearing blocks at the end
-  of the run (needs "every Paragraph is closed before its lines are copied or handed over", a tree-shape invariant); everything about the driver WITH paragraph transformers (`runT`). See notes/status_wf0.md.
+                                    block is non-empty without ForceNewline; its line list is `WFSegs`.
+  PROVED per parser / per driver function (from the reader invariant `RI`, every state): which segment paragraph Open /
+  Continue / Close, ATX Open, setext Open / Close and list Close put into the tree (`paragraph_open_line`, …); the close
+  discipline of `closeBlocks`, `openBlocks`, one pass of the line loop (`close_blocks_discipline`, …).
+  * `lines_in_range_and_ordered`  — `GM.Props.Blocks.LinesInRange src`: C05(c) with the order clause for EVERY node
+                                    (`raw_lines_ordered`: the three raw kinds; `all_lines_ordered`).
+  * `container_nodes_no_lines`    — Document / Blockquote / List / ListItem / ThematicBreak nodes have no lines.
+  NOT proved: everything about the driver WITH paragraph transformers (`runT`). See notes/status_wf0.md.
 -/
-import GM.Proof.BlocksOrdRun
+import GM.Proof.BlocksClosedAll
 import GM.Props.Blocks
 
 namespace GM.Props.Wf0
@@ -81,6 +86,34 @@ theorem lines_ordered_reduction (src : Bytes) :
     | true => exact hh s hs n hn hr
     | false => exact run_ordered src s hs n hn hr
 
+/-- **C05(c), order clause for the three raw kinds, every source.** The line segments of every CodeBlock,
+    FencedCodeBlock and HTMLBlock of the final store increase: each line is appended on its own source line, at or
+    behind the line start — `preserveLeadingTabInCodeBlock`, which moves a segment start one byte back onto a tab, never
+    leaves the line, because a virtual padding only exists behind a tab of the current line (`PadL`). -/
+theorem raw_lines_ordered (src : Bytes) (s : St) (h : GM.Blocks.run src = .ok s) :
+    ∀ n ∈ s.nodes, isRaw n.kind = true → OrdFrom 0 n.lines :=
+  run_ordered_raw src s h
+
+/-- **C05(c) with the order clause, every source** (`GM.Props.Blocks.LinesInRange src` is a theorem): when the block
+    phase returns, the line segments of EVERY node of the store lie inside the source (0 ≤ start ≤ stop ≤ len,
+    padding ≥ 0) and increase (each starts at or behind the previous stop). -/
+theorem lines_in_range_and_ordered (src : Bytes) : GM.Props.Blocks.LinesInRange src :=
+  (lines_ordered_reduction src).2 (fun s hs => run_ordered_raw src s hs)
+
+/-- the same, spelled out per node -/
+theorem all_lines_ordered (src : Bytes) (s : St) (h : GM.Blocks.run src = .ok s) :
+    ∀ n ∈ s.nodes, OrdFrom 0 n.lines := by
+  intro n hn
+  cases hr : isRaw n.kind with
+  | true => exact run_ordered_raw src s h n hn hr
+  | false => exact run_ordered src s h n hn hr
+
+/-- **containers carry no lines, every source**: in the final store, Document, Blockquote, List, ListItem and
+    ThematicBreak nodes have an empty line list (`Lines().Len() == 0`): no block parser ever appends to them. -/
+theorem container_nodes_no_lines (src : Bytes) (s : St) (h : GM.Blocks.run src = .ok s) :
+    ∀ n ∈ s.nodes, noLinesKind n.kind = true → n.lines = [] :=
+  run_no_lines src s h
+
 /-- `InlineLinesWF0` in parts (GM.Proof.BlocksOrd.allInlineWF0_iff_parts), as a statement about the property -/
 theorem inline_wf0_reduction (src : Bytes) :
     GM.Props.Blocks.InlineLinesWF0 src ↔
@@ -113,6 +146,61 @@ theorem inline_bearing_wellformed (src : Bytes) (s : St) (h : GM.Blocks.run src 
   intro n hn hb
   simp only [inlineBearing, Bool.and_eq_true, Bool.not_eq_true'] at hb
   exact run_wfsegs src s h n hn hb.1 (by intro e; rw [e] at hb; simp at hb)
+
+/-! ### the close discipline -/
+
+/-- **padding 0 at the end, every source.** When the block phase returns, every line segment of every block of the
+    store that is not raw has padding 0: each Paragraph / setext heading was handed to its parser's `Close`
+    (paragraphParser.Close trims the lines and resets the padding) before the run ended, and the lines that setext /
+    list `Close` copy into Headings / TextBlocks are copied from closed paragraphs. -/
+theorem nonraw_lines_padding_zero (src : Bytes) (s : St) (h : GM.Blocks.run src = .ok s) :
+    ∀ n ∈ s.nodes, isRaw n.kind = false → ∀ t ∈ n.lines, t.padding = 0 :=
+  run_closed src s h
+
+/-- **the open-block stack is empty when the block phase returns**, every source: every block that was pushed has
+    been popped by `closeBlocks` (which hands it to `Close`: see `close_blocks_discipline`). -/
+theorem open_stack_empty_at_end (src : Bytes) (s : St) (h : GM.Blocks.run src = .ok s) : s.pc.opened = [] :=
+  run_opened_nil src s h
+
+/-- **`InlineLinesWF0`, every source** (the premise `GM.Props.Blocks.InlineLinesWF0 src` of the end-to-end theorems is
+    a theorem): when the block phase returns, the lines of every inline-bearing block of the store (not raw, with at
+    least one line) are `WF0` — non-empty segments inside the source that increase, padding 0, no ForceNewline. -/
+theorem inline_lines_wf0 (src : Bytes) : GM.Props.Blocks.InlineLinesWF0 src :=
+  (inline_wf0_remaining src).2 (fun s hs n hn hb => by
+    have hr : isRaw n.kind = false := by
+      simp only [inlineBearing, Bool.and_eq_true, Bool.not_eq_true'] at hb
+      exact hb.1
+    exact run_closed src s hs n hn hr)
+
+/-- the same, spelled out: `WF0 src n.lines` for every inline-bearing block `n` of the final store -/
+theorem inline_bearing_wf0 (src : Bytes) (s : St) (h : GM.Blocks.run src = .ok s) :
+    ∀ n ∈ s.nodes, inlineBearing n = true →
+      OrdFrom 0 n.lines ∧ ∀ t ∈ n.lines, t.start < t.stop ∧ t.padding = 0 ∧ t.forceNewline = false :=
+  (inline_wf0_reduction src).1 (inline_lines_wf0 src) s h
+
+/-- **closeBlocks under the close discipline** (parser.go:900-918), any state: if every block of the stack is attached
+    and every non-raw node has padding 0 unless it is the node of an open Paragraph / setext block (`CInv`), then
+    `closeBlocks(from, to)` hands EVERY block of the range to its parser's `Close` (none is skipped as detached), the
+    stack becomes `take to ++ drop (from+1)`, and the invariant holds of the new stack — provided the Paragraph /
+    setext blocks that stay open are guarded (`Guard`: their parent is not a Paragraph and not an item of a list that is
+    being closed) and a closing setext heading's paragraph is not an open block. -/
+theorem close_blocks_discipline : type_of% @closeBlocks_cl := @closeBlocks_cl
+/-- **closeBlocks never skips a `Close`** under the close discipline: its loop (with the `Parent() != nil` test of
+    parser.go:904-909) equals the loop without the test (`GM.Blocks.closeAll`) as a state transformer. -/
+theorem close_blocks_never_skips : type_of% @closeList_eq_closeAll := @closeList_eq_closeAll
+/-- the loop of closeBlocks in the same form, for a list of blocks given top first -/
+theorem close_list_discipline : type_of% @closeList_cl := @closeList_cl
+/-- one `Close` call: the closed block's node has padding 0 afterwards; only Paragraph nodes can be detached -/
+theorem close_one_discipline : type_of% @bpClose_cl := @bpClose_cl
+/-- **openBlocks under the close discipline** (parser.go:928-1024): from a clean line start, the invariant holds of the
+    new stack; every node built by the call hangs below the parent of the call or below another new node, and no new
+    node's parent is a Paragraph (`OW`); if the answer is not `newBlocksOpened` the stack is unchanged. -/
+theorem open_blocks_discipline : type_of% @openBlocks_cl := @openBlocks_cl
+/-- one pass of the `for i` loop of parseBlocks (parser.go:1081-1123) keeps the close discipline -/
+theorem line_loop_discipline : type_of% @GM.Blocks.L.lineLoop_cl := @GM.Blocks.L.lineLoop_cl
+/-- the open blocks are consistent with their parsers: the node of an open block has the kind its parser builds and is
+    inside the store -/
+theorem open_block_kind : type_of% @CInv.kinds := @CInv.kinds
 
 /-! ### the invariant behind it, for the integrator of further proofs -/
 
@@ -173,13 +261,27 @@ example : ¬ OrdFrom 0 [{ start := 0, stop := 3 }, { start := 2, stop := 5 }] :=
     `inline_lines_ordered` is not vacuous on it -/
 example : GM.Proof.BlocksWF0.bearing (strBytes "> a\nb\n\nc\n===\n- d\n  e\n") = 3 := by decide +kernel
 
+/-- test: padded segments do occur in final stores — on raw blocks (`-\t\tcode`: the CodeBlock's one line is `3:8` with
+    padding 2), so "padding 0" is a fact about the non-raw blocks only -/
+example : (match GM.Blocks.run (strBytes "-\t\tcode\n") with
+    | .ok st => st.nodes.any (fun n => isRaw n.kind && n.lines.any (fun t => t.padding != 0))
+    | .error _ => false) = true := by decide +kernel
+
+/-- test: a source with an indented code block inside a list item behind tabs (where `preserveLeadingTabInCodeBlock`
+    acts), a fenced block inside a quote and an HTML block: the final store has raw blocks with several lines, so
+    `raw_lines_ordered` is not vacuous on it, and the Boolean oracle of C05(c) agrees -/
+example : (match GM.Blocks.run (strBytes "-\t\ta\n\t\tb\n> ```\n> x\n> y\n<div>\nz\n") with
+    | .ok st => (st.nodes.filter (fun n => isRaw n.kind && decide (2 ≤ n.lines.length))).length
+    | .error _ => 0) = 3 := by decide +kernel
+example : GM.Blocks.checkLines (strBytes "-\t\ta\n\t\tb\n> ```\n> x\n> y\n<div>\nz\n") = "ok" := by decide +kernel
+
 /-- test: `Inv` holds for the state the block phase starts in (the hypothesis of `close_blocks_keeps_order` is
     satisfiable) -/
 example : Inv [97] 0 (initSt [97]) where
-  nrb := fun i _ => by
+  nrb := fun i => by
     cases i with
-    | zero => exact ⟨trivial, Below.nil _, fun t ht => by cases ht⟩
-    | succ k => exact ⟨trivial, Below.nil _, fun t ht => by cases ht⟩
+    | zero => exact NodeB.nil _ rfl
+    | succ k => exact NodeB.nil _ rfl
   pne := fun i hk => by
     cases i with
     | zero => cases hk
